@@ -1,5 +1,6 @@
 import ShVerif.Model.C25
 import ShVerif.Proofs.C25
+import ShVerif.Proofs.C25b
 /-
   C25 — shell.Expand and shell.Fields behave like bash.  Property theorems about the model
   (ShVerif/Model/C25.lean: the two parsers of the fragment and the staged expansion of
@@ -62,18 +63,32 @@ theorem shellExpand_eq_finish (s : Bytes) (env : Env) (hrisk : contRisk false 0 
     inside a `${` / `$((` / `))` token (`contRisk`, finding C25-continuation-inside-dollar-token). -/
 theorem expand_is_heredoc_partial (s : Bytes) (env : Env)
     (hjoin : joinLines false s = bashJoin s) (hrisk : contRisk false 0 s = false)
-    (hin : hdocSem s env ≠ .outside) :
+    (hin : hdocSem s env ≠ .outside ∨ ∃ v, shellExpand s env = .ok v) :
     shellExpand s env = hdocSem s env := by
-  rw [shellExpand_eq_finish s env hrisk]
+  rw [shellExpand_eq_finish s env hrisk] at hin ⊢
   unfold hdocSem at hin ⊢
   simp only at hin ⊢
-  rw [hjoin]
-  rw [← hjoin] at hin
-  rw [hjoin] at hin
+  rw [hjoin] at hin ⊢
+  have hne : hdocText env ((bashJoin s).length + 1) (bashJoin s) ≠ .outside := by
+    rcases hin with h | ⟨v, hv⟩
+    · exact h
+    · intro hout
+      exact parseDoc_not_ok env _ _ [] [] (Or.inl hout) v hv
   have := parseDoc_hdocText env ((bashJoin s).length + 1) (bashJoin s) [] [] [] (by simp [cleanLit])
-    (by simp [expandPartsQ]) hin
+    (by simp [expandPartsQ]) hne
   rw [this]
   cases hdocText env ((bashJoin s).length + 1) (bashJoin s) <;> simp [Res.map, unescQ]
+
+/-- Results coincide in both directions, with only the two finding regions as side conditions:
+    shell.Expand returns `v` iff the one-pass here-document semantics does. -/
+theorem expand_ok_iff (s : Bytes) (env : Env) (v : Bytes)
+    (hjoin : joinLines false s = bashJoin s) (hrisk : contRisk false 0 s = false) :
+    shellExpand s env = .ok v ↔ hdocSem s env = .ok v := by
+  constructor
+  · intro h
+    rw [← expand_is_heredoc_partial s env hjoin hrisk (Or.inr ⟨v, h⟩)]; exact h
+  · intro h
+    rw [expand_is_heredoc_partial s env hjoin hrisk (Or.inl (by rw [h]; intro h'; cases h'))]; exact h
 
 /-- The full statement (no side condition on backslashes): FALSE today. -/
 def expand_is_heredoc_statement : Prop :=
@@ -163,7 +178,14 @@ theorem error_iff_syntax_partial (s : Bytes) (env : Env)
     (hjoin : joinLines false s = bashJoin s) (hrisk : contRisk false 0 s = false)
     (hin : hdocSem s env ≠ .outside) :
     shellExpand s env = .err ↔ hdocSem s env = .err := by
-  rw [expand_is_heredoc_partial s env hjoin hrisk hin]
+  rw [expand_is_heredoc_partial s env hjoin hrisk (Or.inl hin)]
+
+/-- One direction needs no fragment condition: a syntax error of the specification is an error of
+    shell.Expand. -/
+theorem error_of_spec_error (s : Bytes) (env : Env)
+    (hjoin : joinLines false s = bashJoin s) (hrisk : contRisk false 0 s = false)
+    (h : hdocSem s env = .err) : shellExpand s env = .err := by
+  rw [expand_is_heredoc_partial s env hjoin hrisk (Or.inl (by rw [h]; intro h'; cases h'))]; exact h
 
 /-- The same for shell.Fields. -/
 theorem fields_error_env_independent (s : Bytes) (env env' : Env)
